@@ -11,7 +11,7 @@ import (
 func init() {
 	register(&propInfo{
 		ID:          "C12",
-		Explanation: "Value-origin and path analysis of method naming and dispatch: (R12.1) the key under which a handler method is registered is the result of the handler's own configured name formatter applied to (namespace argument, reflected method name); the name a client function sends is its configured formatter's result or, when present, the rpc_method tag; both formatter fields are filled from the respective configuration; the wire request carries exactly that name; (R12.2) in every function resolving a method, the alias table is consulted only after the direct lookup failed, its result is looked up in the method table, and the handler that runs is the one found; (R12.3) a failed parameter decode is tested at once and its failure branch reaches neither another decode nor the handler without an intervening error test; the arity test guards every positional-params path to the handler. (R12.5) the method descriptor is read after name and alias resolution. (R12.6) the only rejections before the handler are unknown name and alias, unsupported channel mode and bad params; (R12.7) an alias is recorded unconditionally. (R12.8) every read of the method table in the dispatcher is a comma-ok lookup. (R12.9) no prefix or substring test of the method name in the frame switch.",
+		Explanation: "Value-origin and path analysis of method naming and dispatch: (R12.1) the key under which a handler method is registered is the result of the handler's own configured name formatter applied to (namespace argument, reflected method name); the name a client function sends is its configured formatter's result or, when present, the rpc_method tag; both formatter fields are filled from the respective configuration; the wire request carries exactly that name; (R12.2) in every function resolving a method, the alias table is consulted only after the direct lookup failed, its result is looked up in the method table, and the handler that runs is the one found; (R12.3) a failed parameter decode is tested at once and its failure branch reaches neither another decode nor the handler without an intervening error test; the arity test guards every positional-params path to the handler. (R12.5) the method descriptor is read after name and alias resolution. (R12.6) the only rejections before the handler are unknown name and alias, unsupported channel mode and bad params; (R12.7) an alias is recorded unconditionally. (R12.8) every read of the method table in the dispatcher is a comma-ok lookup. (R12.9) no prefix or substring test of the method name in the frame switch. (R12.10) nothing on the receiving side stores into the method member of a received request.",
 		NotDecided:  "What formatter functions return (string values), namespace non-leakage between namespaces (a consequence of string equality on formatted names), type mismatches detected by encoding/json itself.",
 		Assumptions: []string{"the method table is the map[string]<struct> field of the dispatcher's receiver; the alias table its map[string]string field"},
 		Run:         runC12,
@@ -35,6 +35,8 @@ func runC12(c *Ctx) {
 	c.rule("R12.1", "registration key and client-side name come from the configured formatter (or the rpc_method tag); formatter fields are filled from configuration; the wire request carries that name")
 	c.rule("R12.9", "a frame is taken for one of the protocol's own notifications only by equality with its name: no prefix / substring test of the method name decides the dispatch (a method registered or aliased under such a prefix must still reach the handler table)")
 	c.noPrefixDispatch("R12.9")
+	c.ruleOpt("R12.10", "a request is dispatched under the method name it was sent with: nothing on the server stores into the method member of a received request (a name 'cleaned' for logs or metrics would otherwise make an unregistered spelling run a registered handler)")
+	c.methodNameUntouched("R12.10")
 	c.rule("R12.2", "direct lookup first; alias only after it failed; alias target looked up in the method table")
 	c.rule("R12.3", "a failed parameter decode is tested at once and cannot reach another decode or the handler; the arity test guards every positional-params path")
 	if !c.need("R12.1", "FN_disp", r.FnDisp != nil) {
@@ -695,5 +697,71 @@ func (c *Ctx) noPrefixDispatch(rule string) {
 		c.bad(rule, construct, c.ipos(bad), "the frame switch classifies the method name by a prefix / substring test: a method whose registered name, alias or tag happens to match (a namespace called like the protocol prefix) never reaches the handler table over WebSocket — no handler runs and no method-not-found reply is sent")
 	} else {
 		c.ok(rule, construct, p.pos(w.FrameSwitch.Pos()), "equality with the built-in names only")
+	}
+}
+
+// methodNameUntouched: R12.10 = R09.18. The method member of a received request is the lookup key of
+// the method table and of the alias table. Code in the dispatcher's cone, in the request reader or in
+// the frame executor that stores into that member (req.Method = sanitize(req.Method), a trimmed or
+// lower-cased copy written back) changes which handler runs: a name that is not registered — "X.Y\n",
+// "X.\u200bY" — collapses onto a registered one and is answered with a result instead of -32601.
+// Building a request (a store into a freshly allocated request on the client, in the forwarder) is
+// not receiving one.
+func (c *Ctx) methodNameUntouched(rule string) {
+	p, r := c.P, c.R
+	if r.FReqMethod == nil || r.FnDisp == nil {
+		c.und(rule, "role:F_req_method/FN_disp", "-", "the request's method member or the dispatcher could not be resolved")
+		return
+	}
+	region := map[*ssa.Function]bool{}
+	for _, g := range p.cone(r.FnDisp) {
+		region[g] = true
+	}
+	for _, in := range c.dispInvokes() {
+		region[in.Parent()] = true
+		region[outermost(in.Parent())] = true
+	}
+	if r.FnExec != nil {
+		for _, g := range p.cone(r.FnExec) {
+			region[g] = true
+		}
+	}
+	n := 0
+	for g := range region {
+		if pkgOf(g) != p.Root.Pkg {
+			continue
+		}
+		allInstrs(g, func(in ssa.Instruction) {
+			st, ok := in.(*ssa.Store)
+			if !ok {
+				return
+			}
+			fa, ok := st.Addr.(*ssa.FieldAddr)
+			if !ok || fieldOfAddr(fa) != r.FReqMethod {
+				return
+			}
+			// a request being built: the base is a fresh allocation that is initialised here
+			if al, ok := fa.X.(*ssa.Alloc); ok {
+				fromParam := false
+				for _, ref := range *al.Referrers() {
+					if s2, ok := ref.(*ssa.Store); ok && s2.Addr == ssa.Value(al) {
+						if _, isP := s2.Val.(*ssa.Parameter); isP {
+							fromParam = true
+						}
+						if u, isU := s2.Val.(*ssa.UnOp); isU && u.Op == token.MUL {
+							fromParam = true
+						}
+					}
+				}
+				if !fromParam {
+					return
+				}
+			}
+			n++
+			c.bad(rule, fmt.Sprintf("%s: store into the method member of a received request", fname(g)), c.ipos(in), "the method name of a received request is rewritten before the lookup: a name that is not registered can collapse onto a registered one, whose handler then runs and answers with a result instead of method-not-found")
+		})
+	}
+	if n == 0 {
+		c.ok(rule, "no instance", "-", "nothing on the receiving side stores into a request's method member")
 	}
 }
